@@ -1467,6 +1467,62 @@ theorem pooled_template_interleaved (env : C17HeapI.HeapI → C17HeapI.HeapI) (h
   obtain ⟨h', e, fr⟩ := evI_val henv root fuel t ht ref h l g hf
   exact ⟨h', e, den_val t _ ht, fr⟩
 
+/-- **What the other goroutines actually do obeys `Rely`.**  The atomic steps of any OTHER evaluation on the shared
+    heap – its `Get` (an object leaves the free list, or a fresh one is allocated), the `Return` of an object it
+    holds (`o` allocated, not in the free list, not this evaluation's: what `pool_exclusive` guarantees for every
+    object somebody else holds), and any write to an object that is not this evaluation's (its overwrite, its
+    `Eval` stores) – each satisfy `Rely`; and so does any sequence of them (`Rely` is reflexive and transitive).
+    So every real schedule is an interference `pooled_template_interleaved` covers. -/
+theorem other_goroutines_obey_rely (h : C17HeapI.HeapI) :
+    Rely h { h with pool := h.pool.get.2 } ∧
+    (∀ o, o < h.pool.next → o ∉ h.pool.free → h.mine o = false → Rely h { h with pool := h.pool.ret o }) ∧
+    (∀ o x, h.mine o = false → Rely h (h.set o x)) ∧
+    Rely h h ∧
+    (∀ h1 h2, Rely h h1 → Rely h1 h2 → Rely h h2) := by
+  refine ⟨?_, ?_, ?_, ⟨id, Nat.le_refl _, fun _ => rfl, fun _ _ => rfl⟩, ?_⟩
+  · -- Get
+    refine ⟨fun ⟨hn, hb, hm⟩ => ?_, ?_, fun _ => rfl, fun _ _ => rfl⟩
+    · cases hl : h.pool.free.getLast? with
+      | none =>
+        have hf : h.pool.free = [] := List.getLast?_eq_none_iff.mp hl
+        rw [show h.pool.get.2 = { h.pool with next := h.pool.next + 1 } from by rw [get_of_empty hl]]
+        exact ⟨by simp [hf], by simp [hf], fun o ho => Nat.lt_succ_of_lt (hm o ho)⟩
+      | some o =>
+        obtain ⟨ys, hy⟩ := List.getLast?_eq_some_iff.mp hl
+        have hd : h.pool.free.dropLast = ys := by rw [hy]; simp
+        rw [show h.pool.get.2 = { h.pool with free := h.pool.free.dropLast } from by rw [get_of_last hl]]
+        have hsub : ∀ x ∈ ys, x ∈ h.pool.free := fun x hx => by rw [hy]; simp [hx]
+        refine ⟨?_, fun x hx => ?_, hm⟩
+        · show h.pool.free.dropLast.Nodup
+          rw [hd]; exact (List.nodup_append.mp (hy ▸ hn)).1
+        · have hx' : x ∈ ys := by
+            have : x ∈ h.pool.free.dropLast := hx
+            rwa [hd] at this
+          exact hb x (hsub x hx')
+    · cases hl : h.pool.free.getLast? with
+      | none => rw [show h.pool.get.2 = { h.pool with next := h.pool.next + 1 } from by rw [get_of_empty hl]]; simp
+      | some o => rw [show h.pool.get.2 = { h.pool with free := h.pool.free.dropLast } from by rw [get_of_last hl]]; simp
+  · -- Return of somebody else's object
+    intro o hlt hnf hmo
+    refine ⟨fun ⟨hn, hb, hm⟩ => ⟨?_, fun x hx => ?_, hm⟩, Nat.le_refl _, fun _ => rfl, fun _ _ => rfl⟩
+    · show (h.pool.free ++ [o]).Nodup
+      refine List.nodup_append.mpr ⟨hn, by simp, ?_⟩
+      intro a ha b hb' e
+      simp at hb'; subst hb'; subst e; exact hnf ha
+    · have hx' : x ∈ h.pool.free ++ [o] := hx
+      simp only [List.mem_append, List.mem_singleton] at hx'
+      rcases hx' with e | e
+      · exact hb x e
+      · subst e; exact ⟨hlt, hmo⟩
+  · -- a write to an object that is not this evaluation's
+    intro o x hmo
+    refine ⟨id, Nat.le_refl _, fun _ => rfl, fun y hy => ?_⟩
+    have : y ≠ o := fun e => by rw [e, hmo] at hy; cases hy
+    simp [C17HeapI.HeapI.set, this]
+  · intro h1 h2 r1 r2
+    exact ⟨fun hp => r2.inv (r1.inv hp), Nat.le_trans r1.next_le r2.next_le, fun x => by rw [r2.mine x, r1.mine x],
+      fun x hx => by rw [r2.keep x (by rw [r1.mine x]; exact hx), r1.keep x hx]⟩
+
 /-- An interference that uses its freedom: at every scheduling point it overwrites EVERY object this evaluation
     has not checked out (parent pointing at the object itself, garbage values) and allocates one more object. -/
 private def envScribble (h : C17HeapI.HeapI) : C17HeapI.HeapI :=
